@@ -3,6 +3,7 @@ package gvc
 import (
 	"fmt"
 	"go/types"
+	"os"
 	"sort"
 	"strings"
 
@@ -231,6 +232,7 @@ const (
 type rootInfo struct {
 	kind rootKind
 	name string // global name / captured variable
+	src  ssa.Value // the *ssa.Parameter or *ssa.FreeVar for rParam
 }
 
 func topOf(fn *ssa.Function) *ssa.Function {
@@ -248,17 +250,17 @@ func (P *Program) rootOf(v ssa.Value, it map[*ssa.Function]bool, seen map[ssa.Va
 	seen[v] = true
 	switch x := v.(type) {
 	case *ssa.Global:
-		return rootInfo{rGlobal, shortPkg(x.Pkg.Pkg.Path()) + "." + x.Name()}
+		return rootInfo{kind: rGlobal, name: shortPkg(x.Pkg.Pkg.Path()) + "." + x.Name()}
 	case *ssa.FreeVar:
 		fn := x.Parent()
 		// a variable captured by a closure that was created during package
 		// initialisation lives as long as the process
 		if fn != nil && fn.Parent() != nil && it[fn.Parent()] {
-			return rootInfo{rGlobal, shortPkg(topOf(fn).Pkg.Pkg.Path()) + "." + funcKeyAnon(fn) + ":" + x.Name()}
+			return rootInfo{kind: rGlobal, name: shortPkg(topOf(fn).Pkg.Pkg.Path()) + "." + funcKeyAnon(fn) + ":" + x.Name()}
 		}
-		return rootInfo{kind: rParam, name: x.Name()}
+		return rootInfo{kind: rParam, name: x.Name(), src: x}
 	case *ssa.Parameter:
-		return rootInfo{kind: rParam, name: x.Name()}
+		return rootInfo{kind: rParam, name: x.Name(), src: x}
 	case *ssa.FieldAddr:
 		return P.rootOf(x.X, it, seen)
 	case *ssa.IndexAddr:
@@ -826,6 +828,7 @@ func (P *Program) ScanContainment() []ScanSite {
 func (P *Program) ScanObligations(prop string) (*Result, []string) {
 	var sites []ScanSite
 	sites = append(sites, P.ScanGlobalWrites()...)
+	sites = append(sites, P.ScanEngineWrites()...)
 	sites = append(sites, P.ScanStdout()...)
 	sites = append(sites, P.ScanContainment()...)
 	sites = append(sites, P.ScanImmutable()...)
@@ -1222,4 +1225,191 @@ func spilledValue(al *ssa.Alloc) ssa.Value {
 func vcIsInt(t types.Type) bool {
 	b, ok := t.Underlying().(*types.Basic)
 	return ok && b.Info()&types.IsInteger != 0
+}
+
+
+// ---------------------------------------------------------------------
+// engine state (C14): after its first compilation an engine (*yae.Expr) is
+// only read by Compile / Parse / CompileExpr and by the Callables it
+// produced.  A write through a reference that is rooted in the engine, made
+// by a function reachable from those entry points (the subtree of the
+// declared initialiser excluded), is a site; it must be a declared writer.
+
+func (P *Program) ScanEngineWrites() []ScanSite {
+	it := P.initTime()
+	isEngine := func(t types.Type) bool {
+		if p, ok := t.(*types.Pointer); ok {
+			if n, ok := p.Elem().(*types.Named); ok && n.Obj().Name() == "Expr" && n.Obj().Pkg() != nil && n.Obj().Pkg().Path() == ModPath {
+				return true
+			}
+		}
+		return false
+	}
+	decl := P.Blocks["global yae.Expr"]
+	if decl == nil {
+		if os.Getenv("GVC_DEBUG") != "" {
+			for k := range P.Blocks {
+				if strings.HasPrefix(k, "global") {
+					fmt.Println("block", k)
+				}
+			}
+		}
+		return nil // not declared: the summary is not requested
+	}
+	initialisers := map[string]bool{}
+	for _, n := range decl.Uses {
+		initialisers[n] = true
+	}
+	// reachability from the compile / invoke entry points
+	var roots []*ssa.Function
+	for _, fn := range P.AllFuncs {
+		lab := fnLabel(fn)
+		switch lab {
+		case "yae.(*Expr).Compile", "yae.(*Expr).Parse", "yae.(*Expr).CompileExpr", "yae.(*Expr).MustCompile", "yae.(*Expr).envCheck":
+			roots = append(roots, fn)
+		}
+	}
+	reach := map[*ssa.Function]bool{}
+	var work []*ssa.Function
+	add := func(f *ssa.Function) {
+		if f == nil || reach[f] || f.Blocks == nil || it[f] {
+			return
+		}
+		if initialisers[fnLabel(f)] {
+			return
+		}
+		reach[f] = true
+		work = append(work, f)
+	}
+	for _, r := range roots {
+		add(r)
+	}
+	for len(work) > 0 {
+		fn := work[len(work)-1]
+		work = work[:len(work)-1]
+		for _, b := range fn.Blocks {
+			for _, in := range b.Instrs {
+				if mc, ok := in.(*ssa.MakeClosure); ok {
+					add(mc.Fn.(*ssa.Function))
+				}
+				if ci, ok := in.(ssa.CallInstruction); ok {
+					add(ci.Common().StaticCallee())
+				}
+			}
+		}
+	}
+	// engine-rooted parameters / free variables (fixpoint)
+	rooted := map[ssa.Value]bool{}
+	for fn := range reach {
+		for _, p := range fn.Params {
+			if isEngine(p.Type()) {
+				rooted[p] = true
+			}
+		}
+	}
+	engineRoot := func(v ssa.Value) bool {
+		r := P.rootOf(v, it, map[ssa.Value]bool{})
+		return r.kind == rParam && r.src != nil && rooted[r.src]
+	}
+	changed := true
+	for changed {
+		changed = false
+		for fn := range reach {
+			for _, b := range fn.Blocks {
+				for _, in := range b.Instrs {
+					switch x := in.(type) {
+					case *ssa.MakeClosure:
+						cf := x.Fn.(*ssa.Function)
+						for i, bnd := range x.Bindings {
+							src := bnd
+							if al, ok := bnd.(*ssa.Alloc); ok {
+								if sv := spilledValue(al); sv != nil {
+									src = sv
+								}
+							}
+							if (engineRoot(src) || (func() bool { p, ok := src.(*ssa.Parameter); return ok && rooted[p] })()) && !rooted[cf.FreeVars[i]] {
+								rooted[cf.FreeVars[i]] = true
+								changed = true
+							}
+						}
+					case ssa.CallInstruction:
+						callee := x.Common().StaticCallee()
+						if callee == nil || !reach[callee] {
+							continue
+						}
+						for i, a := range x.Common().Args {
+							if i < len(callee.Params) && engineRoot(a) && !rooted[callee.Params[i]] {
+								rooted[callee.Params[i]] = true
+								changed = true
+							}
+						}
+					}
+				}
+			}
+		}
+	}
+	wp := P.writesParams(it)
+	found := map[string]string{}
+	for fn := range reach {
+		lab := fnLabel(fn)
+		note := func(addr ssa.Value, what string) {
+			if engineRoot(addr) {
+				found[lab] = what
+			}
+		}
+		for _, b := range fn.Blocks {
+			for _, in := range b.Instrs {
+				switch x := in.(type) {
+				case *ssa.Store:
+					// writing a local cell that merely holds the engine pointer is not a write to the engine
+					if _, isAlloc := x.Addr.(*ssa.Alloc); isAlloc {
+						continue
+					}
+					note(x.Addr, "store")
+				case *ssa.MapUpdate:
+					note(x.Map, "map update")
+				case *ssa.Call:
+					if bi, ok := x.Call.Value.(*ssa.Builtin); ok {
+						if bi.Name() == "copy" || bi.Name() == "delete" {
+							note(x.Call.Args[0], bi.Name())
+						}
+						continue
+					}
+					callee := x.Call.StaticCallee()
+					if callee == nil {
+						continue
+					}
+					if callee.Pkg != nil && callee.Pkg.Pkg.Path() == "sort" && len(x.Call.Args) > 0 {
+						note(x.Call.Args[0], "sort (in place)")
+						continue
+					}
+					// a callee outside the reachable set (e.g. external) that writes through a parameter
+					if !reach[callee] && wp[callee] != nil && !initialisers[fnLabel(callee)] {
+						for i, a := range x.Call.Args {
+							if wp[callee][i] {
+								note(a, "write through "+callee.Name())
+							}
+						}
+					}
+				}
+			}
+		}
+	}
+	var sites []ScanSite
+	for lab, what := range found {
+		s := ScanSite{Name: "frames/engine-write@" + lab, Props: []string{"C14", "C13"}}
+		for _, w := range decl.Writers {
+			if w == lab || strings.HasSuffix(lab, "."+w) {
+				s.OK = true
+				s.Why = "declared writer of engine state"
+				s.Assume = strings.Join(decl.Notes, "; ")
+			}
+		}
+		if !s.OK {
+			s.Why = what + " to memory reachable from the engine (*yae.Expr) on the compile / invoke path, outside the declared initialiser"
+		}
+		sites = append(sites, s)
+	}
+	sort.Slice(sites, func(i, j int) bool { return sites[i].Name < sites[j].Name })
+	return sites
 }
